@@ -64,6 +64,26 @@ Theorem C09_oracle_is_optimal_on_small_words :
 Proof. exact gotoh_matches_enumeration_small. Qed.
 Print Assumptions C09_oracle_is_optimal_on_small_words.
 
+(* The CODE MODEL on the same finite domain (exhaustive, in the kernel): the score it reports is that
+   optimum, and the rows it returns score exactly what it reports *)
+Theorem C09_code_model_optimal_on_small_words :
+  forall sc s1 s2, In sc small_schemes -> In s1 small_words -> In s2 small_words ->
+  let '(m, x, o, e) := sc in
+  exists r, align_pair false (mkscheme false m x o e) s1 s2 = Some r /\
+            r_score r = LocalEnum.best_enum (LocalEnum.mm m x) o e s1 s2 /\
+            (r_score r = 0 \/ score_cols (LocalEnum.mm m x) o e (r_row1 r) (r_row2 r) 0 = r_score r).
+Proof. exact code_model_optimal_small. Qed.
+Print Assumptions C09_code_model_optimal_on_small_words.
+
+(* ... and on 120 x 30 pairs of words of length 1..4 in the regime where the first-row seeding of the gap
+   accumulators matters (the defect repaired by commit 849958e makes this statement false) *)
+Theorem C09_code_model_optimal_on_medium_words :
+  forall s1 s2, In s1 medium_words1 -> In s2 medium_words2 ->
+  exists r, align_pair false (mkscheme false 10 (-8) (-6) (-1)) s1 s2 = Some r /\
+            r_score r = LocalEnum.best_enum (LocalEnum.mm 10 (-8)) (-6) (-1) s1 s2.
+Proof. exact code_model_optimal_medium. Qed.
+Print Assumptions C09_code_model_optimal_on_medium_words.
+
 Definition C09_gotoh_is_optimal_statement : Prop :=
   forall (sub : byte -> byte -> Z) opn ext s1 s2 r1 r2 st1 st2 en1 en2,
   opn <= ext -> ext < 0 -> valid_alignment s1 s2 r1 r2 st1 st2 en1 en2 ->
